@@ -167,7 +167,7 @@ class Checker:
             if y is not None:
                 want_a = np.asarray(y)[j:j + b][:, j:j + b]
             else:
-                cols = sel if dyn else np.arange(X.shape[1])
+                cols = sel if (dyn and len(sel) > 0) else np.arange(X.shape[1])   # nothing selected: all features
                 if needs_affinity(self.cfg):
                     want_a = self.h.sim_gemini.real.compute_affinity(Xblk[:, cols])
                 else:
